@@ -768,7 +768,7 @@ class C08(Check):
                     "*_translated theorems (escape, unescape, untyped split/join, make_record)",
                     "file system, gzip and codecs: a relation file is modelled as its decoded text (writeText/linesOf)"]
 
-    props_modules = ["Verif.C08.Props", "Verif.C08.PropsFile", "Verif.C08.Translated"]
+    props_modules = ["Verif.C08.Props", "Verif.C08.PropsFile", "Verif.C08.Translated", "Verif.C08.TranslatedTyped"]
 
     def translation_specs(self):
         from .common import py2lean as P
@@ -784,13 +784,32 @@ class C08(Check):
                    [("colmap", P.Dict(P.STR, P.Struct("Verif.C08.Val", {}))),
                     ("fields", P.Lst(P.Struct("Verif.C08.PyField", {"name": P.STR, "datatype": P.STR})))],
                    P.Lst(P.Opt(P.Struct("Verif.C08.Val", {})))),
+        ] + self.typed_specs()
+
+    def typed_specs(self):
+        """the TYPED branches of split/join (call shape: `fields` non-empty); tsdb.cast / tsdb.format are OPAQUE callees
+        (explicit function parameters, instantiated with the model's castPy / formatPy in the theorems); the columns /
+        fields arguments of _mismatched_counts are only read inside its unevaluated message"""
+        from .common import py2lean as P
+        val = P.Struct("Verif.C08.Val", {})
+        fld = P.Struct("Verif.C08.PyFieldD", {"name": P.STR, "datatype": P.STR, "default": P.STR})
+        cast_o = P.Opaque(tsdb.cast, "castO", [("datatype", P.STR), ("raw_value", P.Opt(P.STR))], val)
+        format_o = P.Opaque(tsdb.format, "formatO", [("datatype", P.STR), ("value", val), ("default", P.Opt(P.STR))],
+                            P.STR)
+        return [
+            P.Spec(tsdb._mismatched_counts, "mismatched_counts", [("columns", P.UNUSED), ("fields", P.UNUSED)], P.NONE),
+            P.Spec(tsdb.split, "split_typed", [("line", P.STR), ("fields", P.Lst(fld))], P.Lst(val),
+                   opaque=[cast_o], assume={"fields": True}),
+            P.Spec(tsdb.join, "join_typed", [("values", P.Lst(val)), ("fields", P.Lst(fld))], P.STR,
+                   opaque=[format_o], assume={"fields": True}),
         ]
 
     def translations(self):
         """Source translation (harness/common/py2lean.py, TRANSLATOR.md): the current source text of these functions
         becomes lean/Verif/Generated/TransC08.lean; lean/Verif/C08/Translated.lean proves each equal to the model's."""
         from .common import py2lean as P
-        return P.translate_module(self.translation_specs(), "Verif.Trans.C08", imports=["Verif.C08.Model"])
+        return P.translate_module(self.translation_specs(), "Verif.Trans.C08",
+                                  imports=["Verif.C08.Model", "Verif.C08.TypedTypes"])
 
     def tables(self):
         """Pins: the string/number constants of the anchored functions that the hand-written model mirrors
@@ -912,6 +931,23 @@ class C08(Check):
         # every one-character escape: a newly accepted (or newly rejected) escape letter has a two-character witness
         for cp in range(0, 128):
             yield {"kind": "unescape", "op": "unescape", "s": cps("\\" + chr(cp))}
+        # the typed branches of split/join (translated: split_typed / join_typed): every column count around the field
+        # count, columns whose datatypes / defaults / values all differ (a swapped pairing, a wrong attribute handed to
+        # cast/format or a dropped count check has a witness here), None in every position
+        tf = [("i-id", ":integer"), ("i-wf", ":integer"), ("i-input", ":string"), ("polarity", ":string"),
+              ("i-date", ":date")]
+        tv = [{"int": "7"}, {"int": "0"}, {"str": cps("a@b\\")}, {"str": cps("")}, {"date": [2001, 2, 3, 4, 5, 6]}]
+        for k in range(1, len(tf) + 1):
+            for rot in range(k):
+                f = (tf[:k])[rot:] + (tf[:k])[:rot]
+                v = (tv[:k])[rot:] + (tv[:k])[:rot]
+                for vals in (v, [None] * k, v[:-1], v + [None], v[::-1], [None] + v[1:], v[:-1] + [None]):
+                    yield {"kind": "tjoin", "op": "tjoin", "fields": jfields(f), "vals": vals}
+                cols = {":integer": "12", ":string": "x\\sy", ":date": "3-feb-2001"}
+                line = "@".join(cols[t] for _, t in f)
+                for ln in (line, line + "\n", line + "@", "@" + line, "@".join([""] * k), line.replace("12", "zz", 1),
+                           "@".join(cols[t] for _, t in f[::-1])):
+                    yield {"kind": "tsplit", "op": "tsplit", "fields": jfields(f), "s": cps(ln)}
         kinds = sorted({c["kind"] for c in seeds if c["kind"] in
                         ("escape", "unescape", "split", "join", "int", "castint", "float", "date", "castdate",
                          "str", "row")})
